@@ -35,6 +35,11 @@ type SendScenario struct {
 	// DialFail: the n-th call of the dial function (1-based) fails without opening a connection
 	// (the client then tries its fallback port, if it has one).
 	DialFail int `json:"dialFail,omitempty"`
+	// Second: how the peer behaves from the second connection on (nil: like the first).
+	Second *refsmtpd.Config `json:"second,omitempty"`
+	// SwitchPolicy: before the second dial of the ops dialandsend2 and dial-redial-send the caller
+	// reconfigures the Client with SetTLSPolicy(SwitchPolicy).
+	SwitchPolicy string `json:"switchPolicy,omitempty"`
 	// DialBlocks: the dial function itself blocks until its context is done.
 	DialBlocks bool `json:"dialBlocks,omitempty"`
 	// CtxMs: when > 0 the caller's context carries a deadline of its own, CtxMs from the start
@@ -42,6 +47,25 @@ type SendScenario struct {
 	CtxMs  int        `json:"ctxMs,omitempty"`
 	Sched  uint64     `json:"sched"`
 	Policy sim.Policy `json:"policy,omitempty"`
+}
+
+// switchPolicy is the caller reconfiguring the Client between two dials; the number of bytes the
+// client has written on each connection so far is recorded (what is written later was written
+// under the new policy).
+func switchPolicy(c *mail.Client, sc *SendScenario, run *SendRun, env *NetEnv) {
+	run.SwitchOffsets = nil
+	for _, p := range env.Pipes {
+		run.SwitchOffsets = append(run.SwitchOffsets, p.C2SLen())
+	}
+	run.Switched = true
+	switch sc.SwitchPolicy {
+	case "mandatory":
+		c.SetTLSPolicy(mail.TLSMandatory)
+	case "opportunistic":
+		c.SetTLSPolicy(mail.TLSOpportunistic)
+	case "none":
+		c.SetTLSPolicy(mail.NoTLS)
+	}
 }
 
 func callCtx(sc *SendScenario) (context.Context, context.CancelFunc) {
@@ -67,9 +91,12 @@ type SendRun struct {
 	Built  [][]*Built
 	States [][]MsgState
 	// Calls by name in order; Target is the judged call of each batch (or the single op).
-	DialCall  *CallRec
-	SendCalls []*CallRec
-	CloseCall *CallRec
+	// Switched / SwitchOffsets: see switchPolicy
+	Switched      bool
+	SwitchOffsets []int64
+	DialCall      *CallRec
+	SendCalls     []*CallRec
+	CloseCall     *CallRec
 	// ResendCall is the retry of the failed messages (nil if none took place); Resent lists them.
 	ResendCall *CallRec
 	Resent     map[string]bool
@@ -127,6 +154,9 @@ func execSendHook(t *testing.T, sc *SendScenario, logger mlog.Logger, hook func(
 	run.Res = RunSim(t, sc.Sched, pol, 0, 2*time.Hour, func(k *sim.Kernel) (func(), func()) {
 		env := &NetEnv{K: k, Srv: refsmtpd.New(k, sc.Server, TLSMat), Faults: []sim.ConnFaults{sc.Conn}, Host: sc.Client.host(), DialFail: sc.DialFail, DialBlocks: sc.DialBlocks}
 		run.Env = env
+		if sc.Second != nil {
+			env.Later = []*refsmtpd.Server{refsmtpd.New(k, *sc.Second, TLSMat)}
+		}
 		if hook != nil {
 			hook(env)
 		}
@@ -217,7 +247,10 @@ func execSendHook(t *testing.T, sc *SendScenario, logger mlog.Logger, hook func(
 				}))
 			case "dialandsend2":
 				// two DialAndSend calls on the same Client (the peer may behave differently)
-				for _, bs := range run.Built {
+				for bi, bs := range run.Built {
+					if bi == 1 {
+						switchPolicy(c, sc, run, env)
+					}
 					ms := msgsOf(bs)
 					call := env.Call("DialAndSend", func() error {
 						if sc.CtxMs > 0 {
@@ -231,6 +264,27 @@ func execSendHook(t *testing.T, sc *SendScenario, logger mlog.Logger, hook func(
 					if !call.Returned {
 						break
 					}
+				}
+			case "dial-redial-send":
+				// DialWithContext, no Close, (the caller reconfigures the Client,) DialWithContext
+				// again, Send, Close: what is sent after the second dial belongs to the second dial
+				first := env.Call("DialWithContext", func() error { return c.DialWithContext(context.Background()) })
+				if first.Err != nil || first.Panic != nil || !first.Returned {
+					run.DialCall = first
+					break
+				}
+				switchPolicy(c, sc, run, env)
+				run.DialCall = env.Call("DialWithContext", func() error { ctx, cancel := callCtx(sc); defer cancel(); return c.DialWithContext(ctx) })
+				if run.DialCall.Err == nil && run.DialCall.Panic == nil && run.DialCall.Returned {
+					for _, bs := range run.Built {
+						ms := msgsOf(bs)
+						call := env.Call("Send", func() error { return c.Send(ms...) })
+						run.SendCalls = append(run.SendCalls, call)
+						if !call.Returned {
+							break
+						}
+					}
+					run.CloseCall = env.Call("Close", c.Close)
 				}
 			case "send":
 				run.DialCall = env.Call("DialWithContext", func() error { ctx, cancel := callCtx(sc); defer cancel(); return c.DialWithContext(ctx) })
